@@ -1,5 +1,6 @@
 """C02 SM4 block cipher matches GB/T 32907 and decrypt inverts encrypt"""
 from .. import rules_k as K, rules_p as RP, rules_i as I, rules_g as G, frame as FR, paramalg as pa
+import re
 from ..prov import Prov, norm
 from ..builder import Canon
 
@@ -18,6 +19,234 @@ def rounds(var, f, key):
         a, b, c = [(r + 1 + k) % 4 for k in range(3)]
         out.append((str(r), 'BitXor(%s, %s(BitXor(BitXor(BitXor(%s, %s), %s), %s)))' % (rd(r, r), f, rd(a, r), rd(b, r), rd(c, r), key(r))))
     return out
+
+
+def recurrence(fn, F, var, f, keyname, keyidx, rkvar=None):
+    """Decide X_{s+4} = X_s ^ f(X_{s+1} ^ X_{s+2} ^ X_{s+3} ^ KEY[keyidx(s)]) for s = 0..31 *whatever the loop shape*:
+    the index arithmetic of every element store and read is evaluated for every iteration of the (constant-trip) loop,
+    and an abstract state records which word of the sequence X_0..X_35 each cell of `var` holds; the XOR operands may
+    come in any order; every read must see the memory version current at its store (no value carried across a write).
+    With rkvar: also rk_p = X_{p+4} for p = 0..31, each stored once.  Returns (True, summary) / (False, reason) /
+    None when the stores are not of this kind at all (the caller keeps its template verdict)."""
+    from .. import ctext as CT
+    P = Prov(fn, F, cut_loops=True); cn = Canon(fn, P)
+    dom = fn.dominators()
+    names = (var,) + ((rkvar,) if rkvar else ())
+    lens = {}
+    for l_ in fn.locals:
+        m_ = re.match(r'^\[u32; (\d+)\]$', (l_.get('ty') or '').strip())
+        if m_ and l_.get('name'):
+            lens[l_['name']] = int(m_.group(1))
+    lens.update({'CK': 32, '$self.rk': 32, 'FK': 4})
+    ev = []
+    for b, i, st in fn.stmts():
+        if st['k'] != 'assign':
+            continue
+        lp = st['lhs']
+        nm = fn.locals[lp['l']].get('name')
+        if nm not in names or len(lp['p']) != 1 or not isinstance(lp['p'][0], dict):
+            continue
+        q = lp['p'][0]
+        if 'idx' in q:
+            it = cn.c(norm(P.local(q['idx'], b, i)))
+        elif 'cidx' in q:
+            it = str(q['cidx'])
+        else:
+            continue
+        ve = norm(P.rvalue(st['rv'], b, i, 0))
+        ev.append(((b, i), 'store', nm, I.shorten_vars(it), I.shorten_vars(cn.c(ve)), P.stale_reads(ve, b, i)))
+    for b in FR.calls_of(fn, 'copy_from_slice'):
+        n_ = len(fn.blocks[b]['stmts'])
+        from ..builder import root_local
+        t_ = fn.blocks[b]['term']
+        txt = []
+        for k_ in (0, 1):
+            tx = I.shorten_vars(FR.arg_canon(fn, P, cn, b, k_))
+            rl = root_local(P, t_['args'][k_], b, n_) if t_['args'][k_]['k'] in ('copy', 'move') else None
+            own = fn.locals[rl].get('name') if rl is not None else None
+            if own not in names and t_['args'][k_]['k'] in ('copy', 'move'):
+                # a chunk handed out by `x.chunks_exact_mut(n)` / `x.iter_mut()` belongs to x
+                for x_ in P.operand(t_['args'][k_], b, n_).walk():
+                    if x_.k == 'call' and x_.name and x_.name.split('::')[-1] in ('iter_mut', 'chunks_exact_mut', 'chunks_mut', 'chunks_exact', 'chunks') and x_.site and x_.site[1] == -1:
+                        tb_ = fn.blocks[x_.site[0]]['term']
+                        if tb_['args'] and tb_['args'][0]['k'] in ('copy', 'move'):
+                            r2 = root_local(P, tb_['args'][0], x_.site[0], len(fn.blocks[x_.site[0]]['stmts']))
+                            own = fn.locals[r2].get('name') if r2 is not None else None
+                            break
+            if own in names:
+                # the array is named by its owner (an array that is only written in bulk is otherwise shown by its initialiser)
+                try:
+                    nd = CT.parse(tx)
+                    if nd[0] == 'call' and nd[1] in ('index', 'index_mut') and len(nd[2]) == 2:
+                        tx = CT.show(('call', nd[1], [('sym', own), nd[2][1]], None))
+                    else:
+                        tx = own
+                except CT.ParseError:
+                    pass
+            txt.append(tx)
+        ev.append(((b, n_), 'copy', None, txt[0], txt[1], []))
+    if not any(e_[1] == 'store' and e_[2] == var for e_ in ev):
+        return None
+    sccs = [c for c in fn.sccs() if len(c) > 1 or any(b_ in fn.succ(b_) for b_ in c)]
+    def loop_of(b):
+        for c in sccs:
+            if b in c:
+                return frozenset(c)
+        return None
+    body_loops = {loop_of(e_[0][0]) for e_ in ev if e_[1] == 'store' and e_[2] == var and ('%s[' % var) in e_[4]}
+    body_loops.discard(None)
+    if len(body_loops) != 1:
+        return (False, 'the recurrence stores are not inside exactly one loop')
+    body = list(body_loops)[0]
+    order = lambda e_: (len(dom.get(e_[0][0], ())), e_[0][0], e_[0][1])
+    head = min(body, key=lambda b_: len(dom.get(b_, ())))
+    pre = sorted([e_ for e_ in ev if e_[0][0] not in body and e_[0][0] in dom.get(head, ())], key=order)
+    inl = sorted([e_ for e_ in ev if e_[0][0] in body], key=order)
+    post = sorted([e_ for e_ in ev if e_[0][0] not in body and e_[0][0] not in dom.get(head, ())], key=order)
+    cells, rk = {}, {}
+    state = {'next': 0}
+    why = []
+
+    def word_of(node, env):
+        """(array name, index) of an element read: name[idx] or index(name, Range{a, b})[j]"""
+        if node[0] != 'idx':
+            return None
+        base, ix = node[1], node[2]
+        if base[0] == 'sym':
+            v = CT.ev(ix, env, lens)
+            return (base[1], v) if v is not None else None
+        if base[0] == 'call' and base[1] in ('index', 'index_mut') and len(base[2]) == 2 and base[2][0][0] == 'sym' and base[2][1][0] == 'aggr' \
+                and base[2][1][1] == 'Range::Range':
+            a_, b_ = CT.ev(base[2][1][2][0], env, lens), CT.ev(base[2][1][2][1], env, lens)
+            j_ = CT.ev(ix, env, lens)
+            if None in (a_, b_, j_) or not 0 <= j_ < b_ - a_:
+                return None
+            return (base[2][0][1], a_ + j_)
+        return None
+
+    def span_of(text, env):
+        """(array name, first index, length) of a whole array or a sub-slice given as canonical text"""
+        try:
+            node = CT.parse(text)
+        except CT.ParseError:
+            return None
+        if node[0] == 'sym' and node[1] in lens:
+            return (node[1], 0, lens[node[1]])
+        if node[0] == 'call' and node[1] in ('index', 'index_mut') and len(node[2]) == 2 and node[2][0][0] == 'sym' and node[2][1][0] == 'aggr':
+            r_ = node[2][1]
+            if r_[1] == 'Range::Range':
+                a_, b_ = CT.ev(r_[2][0], env, lens), CT.ev(r_[2][1], env, lens)
+                if None not in (a_, b_) and b_ >= a_:
+                    return (node[2][0][1], a_, b_ - a_)
+        return None
+
+    def do(e_, env):
+        _, kind, nm, it, vt, stale = e_
+        if stale:
+            why.append('a value read from %s is carried across a later write of the same cell' % var)
+            return False
+        if kind == 'copy':
+            d_, s_ = span_of(it, env), span_of(vt, env)
+            if d_ is None or s_ is None:
+                return True          # a copy that does not concern these arrays
+            if d_[0] == rkvar and s_[0] == var and d_[2] == s_[2]:
+                for j_ in range(d_[2]):
+                    if d_[1] + j_ in rk or s_[1] + j_ not in cells:
+                        why.append('round key %d is stored twice or from an undefined word' % (d_[1] + j_))
+                        return False
+                    rk[d_[1] + j_] = cells[s_[1] + j_]
+                return True
+            if d_[0] in names:
+                why.append('unexpected bulk copy into %s' % d_[0])
+                return False
+            return True
+        try:
+            ix, val = CT.parse(it), CT.parse(vt)
+        except CT.ParseError as ex_:
+            why.append(str(ex_))
+            return False
+        cell = CT.ev(ix, env, lens)
+        if cell is None:
+            why.append('store index %s is not a function of the loop counter' % it[:60])
+            return False
+        if nm == rkvar:
+            w_ = word_of(val, env)
+            if w_ is None or w_[0] != var or w_[1] not in cells or cell in rk:
+                why.append('rk[%d] is not a single defined word of %s (or is stored twice): %s' % (cell, var, vt[:80]))
+                return False
+            rk[cell] = cells[w_[1]]
+            return True
+        leaves = CT.flatten_xor(val)
+        fl = [x for x in leaves if x[0] == 'call' and x[1].split('::')[-1] == f and len(x[2]) == 1]
+        own = [x for x in leaves if x[0] == 'idx']
+        if len(leaves) != 2 or len(fl) != 1 or len(own) != 1:
+            if ('%s[' % var) not in vt:
+                # an initialiser of one of the first four words (its value is the I-SM4 new/fk obligation)
+                if cell in cells or cell > 3:
+                    why.append('word %d initialised twice or out of place' % cell)
+                    return False
+                cells[cell] = cell
+                return True
+            why.append('a store into %s is not  word ^ %s(..)' % (var, f))
+            return False
+        w0 = word_of(own[0], env)
+        inner = CT.flatten_xor(fl[0][2][0])
+        ws = [word_of(x, env) for x in inner]
+        if w0 is None or w0[0] != var or w0[1] not in cells or len(inner) != 4 or None in ws:
+            why.append('operands are not three words of %s and one key word: %s' % (var, vt[:100]))
+            return False
+        s0 = cells[w0[1]]
+        kw = [w for w in ws if w[0] != var]
+        vw = [w for w in ws if w[0] == var]
+        if len(kw) != 1 or kw[0][0] != keyname or len(vw) != 3 or any(w[1] not in cells for w in vw):
+            why.append('operands are not three defined words of %s and one word of %s' % (var, keyname))
+            return False
+        if sorted(cells[w[1]] for w in vw) != [s0 + 1, s0 + 2, s0 + 3]:
+            why.append('step %d combines X_%d with X_%s (want X_%d, X_%d, X_%d)' % (state['next'], s0, sorted(cells[w[1]] for w in vw), s0 + 1, s0 + 2, s0 + 3))
+            return False
+        if s0 != state['next']:
+            why.append('step %d starts from X_%d' % (state['next'], s0))
+            return False
+        if kw[0][1] != keyidx(s0):
+            why.append('step %d uses %s[%d] (want %s[%d])' % (s0, keyname, kw[0][1], keyname, keyidx(s0)))
+            return False
+        cells[cell] = s0 + 4
+        state['next'] += 1
+        return True
+
+    if not [e_ for e_ in pre if e_[1] == 'store' and e_[2] == var]:
+        cells.update({0: 0, 1: 1, 2: 2, 3: 3})        # whole-array initialiser (I-SM4 new/fk / load)
+    for e_ in pre:
+        if not do(e_, {}):
+            return (False, why[0])
+    ctr = set()
+    for e_ in inl:
+        for t_ in (e_[3], e_[4]):
+            try:
+                ctr |= CT.counters(CT.parse(t_))
+            except CT.ParseError as ex_:
+                return (False, str(ex_))
+    if len(ctr) != 1:
+        return (False, 'the loop body uses %d loop counters' % len(ctr))
+    C = list(ctr)[0]
+    domv = CT.counter_domain(C, lens)
+    if domv is None:
+        return (False, 'the loop counter %s does not run over a constant range' % C)
+    for t_ in domv:
+        for e_ in inl:
+            if not do(e_, {C: t_}):
+                return (False, '%s (iteration %s = %d)' % (why[0], C, t_))
+    for e_ in post:
+        if not do(e_, {}):
+            return (False, why[0])
+    if state['next'] != 32:
+        return (False, '%d rounds instead of 32' % state['next'])
+    if rkvar is not None:
+        bad = [p_ for p_ in range(32) if rk.get(p_) != p_ + 4]
+        if bad:
+            return (False, 'round key %d holds X_%s (want X_%d)' % (bad[0], rk.get(bad[0]), bad[0] + 4))
+    top = sorted(cells.items(), key=lambda kv: -kv[1])[:4]
+    return (True, '32 steps in order; the last four words X_35..X_32 are in cells %s' % [c_ for c_, _ in top], {v_: c_ for c_, v_ in cells.items()})
 
 
 def words(p):
@@ -85,16 +314,24 @@ def block_fn(cx, name, keyidx, what):
     P = Prov(fn, F, cut_loops=True); cn = Canon(fn, P)
     st = [(I.shorten_vars(a), I.shorten_vars(b)) for a, b in I.stores(fn, F, 'x')]
     want = rounds('x', 't', lambda r: '$self.rk[%s]' % keyidx(r))
-    cx.add('I-SM4', name + '/rounds', st == want, '%s: X_{i+4} = X_i ^ T(X_{i+1} ^ X_{i+2} ^ X_{i+3} ^ rk) four per iteration, 8 iterations, %s' % (name, what), fn.loc(), {'got': st, 'want': want})
+    # primary decision: the recurrence simulated over the constant trip count (any loop shape, any operand order, memory
+    # versions checked); the four-per-iteration template is the fallback when the stores are not recognisable at all
+    rec = recurrence(fn, F, 'x', 't', '$self.rk', (lambda s_: s_) if name == 'encrypt' else (lambda s_: 31 - s_))
+    ok_r = rec[0] if rec is not None else st == want
+    cx.add('I-SM4', name + '/rounds', ok_r, '%s: X_{i+4} = X_i ^ T(X_{i+1} ^ X_{i+2} ^ X_{i+3} ^ rk_j) for 32 steps, %s%s' % (name, what, (' -- ' + rec[1]) if rec is not None else ''), fn.loc(), {'got': st, 'want': want})
     init = [I.shorten_vars(cn.c(norm(P.rvalue(s_['rv'], b, i, 0)))) for b, i, s_ in fn.stmts() if s_['k'] == 'assign' and fn.locals[s_['lhs']['l']].get('name') == 'x' and not s_['lhs']['p']]
     cx.add('I-SM4', name + '/load', init == [words('block')], 'the block is read as four big-endian words', fn.loc())
     cfs = []
     for b in FR.calls_of(fn, 'copy_from_slice'):
         cfs.append((FR.arg_canon(fn, P, cn, b, 0), I.shorten_vars(FR.arg_canon(fn, P, cn, b, 1))))
-    want = [('index_mut(repeat{0}, Range::Range{%d, %d})' % (4 * k, 4 * k + 4), 'to_be_bytes:u32(x[%d]#{E|[%d]})' % (3 - k, 3 - k)) for k in range(4)]
-    cx.add('I-SM4', name + '/reverse-out', cfs == want, 'output = (X35, X34, X33, X32) big-endian (reverse transform R)', fn.loc(), {'got': cfs})
+    where = rec[2] if rec is not None and rec[0] else {35 - k: 3 - k for k in range(4)}
+    import re as _re
+    got = [(a_, _re.sub(r'#\{[^{}]*(?:\{[^{}]*\}[^{}]*)*\}', '', b_)) for a_, b_ in cfs]
+    want = [('index_mut(repeat{0}, Range::Range{%d, %d})' % (4 * k, 4 * k + 4), 'to_be_bytes:u32(x[%d])' % where.get(35 - k, -1)) for k in range(4)]
+    stale_out = [b for b in FR.calls_of(fn, 'copy_from_slice') if P.stale_reads(norm(P.operand(fn.blocks[b]['term']['args'][1], b, len(fn.blocks[b]['stmts']))), b, len(fn.blocks[b]['stmts']))]
+    cx.add('I-SM4', name + '/reverse-out', got == want and not stale_out, 'output = (X35, X34, X33, X32) big-endian (reverse transform R), read after the last round', fn.loc(), {'got': cfs})
     nl = I.find_loop(fn, P, cn, 'Range::Range{0, 8}')
-    cx.add('I-SM4', name + '/trip', nl is not None, 'the round loop runs 8 times (32 rounds)', fn.loc())
+    cx.add('I-SM4', name + '/trip', (rec is not None and rec[0]) or nl is not None, 'the round loop performs 32 rounds', fn.loc())
 
 
 def run(cx):
@@ -151,14 +388,30 @@ def run(cx):
         P = Prov(fn, F, cut_loops=True); cn = Canon(fn, P)
         st = [(I.shorten_vars(a), I.shorten_vars(b)) for a, b in I.stores(fn, F, 'k')]
         want = rounds('k', 't_prime', lambda r: 'CK[%s]' % IDX[r])
-        cx.add('I-SM4', 'new/schedule', st == want, "key schedule: K_{i+4} = K_i ^ T'(K_{i+1} ^ K_{i+2} ^ K_{i+3} ^ CK_i)", fn.loc(), {'got': st})
+        rec = recurrence(fn, F, 'k', 't_prime', 'CK', lambda s_: s_, 'rk')
+        rec_k = recurrence(fn, F, 'k', 't_prime', 'CK', lambda s_: s_) if rec is not None and not rec[0] else rec
+        cx.add('I-SM4', 'new/schedule', rec_k[0] if rec_k is not None else st == want, "key schedule: K_{i+4} = K_i ^ T'(K_{i+1} ^ K_{i+2} ^ K_{i+3} ^ CK_i) for 32 steps%s" % ((' -- ' + rec_k[1]) if rec_k is not None else ''), fn.loc(), {'got': st})
         rk = [(I.shorten_vars(a), I.shorten_vars(b)) for a, b in I.stores(fn, F, 'rk')]
-        cx.add('I-SM4', 'new/rk', rk == [(IDX[r], 'k[%d]#{[%d]}' % (r, r)) for r in range(4)], 'rk_i = K_{i+4}, stored in round order', fn.loc(), {'got': rk})
+        cx.add('I-SM4', 'new/rk', rec[0] if rec is not None else rk == [(IDX[r], 'k[%d]#{[%d]}' % (r, r)) for r in range(4)], 'rk_i = K_{i+4} for i = 0..31, each stored once%s' % ((' -- ' + rec[1]) if rec is not None and not rec[0] else ''), fn.loc(), {'got': rk})
         init = [cn.c(norm(P.rvalue(s_['rv'], b, i, 0))) for b, i, s_ in fn.stmts() if s_['k'] == 'assign' and fn.locals[s_['lhs']['l']].get('name') == 'k' and not s_['lhs']['p']]
         mk = words('k')
-        cx.add('I-SM4', 'new/fk', init == ['array{%s}' % ', '.join('BitXor(%s[%d], FK[%d])' % (mk, k, k) for k in range(4))], '(K0..K3) = MK ^ FK with MK read big-endian', fn.loc())
+        fk_ok = init == ['array{%s}' % ', '.join('BitXor(%s[%d], FK[%d])' % (mk, k, k) for k in range(4))]
+        if not fk_ok:
+            # the four words written one by one into a larger zeroed array (K kept as K0..K35)
+            first = [(a_, b_) for a_, b_ in I.stores(fn, F, 'k') if 'k[' not in I.shorten_vars(b_)]
+            fk_ok = first == [(str(k), 'BitXor(%s[%d], FK[%d])' % (mk, k, k)) for k in range(4)] and init in (['repeat{0}'], [])
+        cx.add('I-SM4', 'new/fk', fk_ok, '(K0..K3) = MK ^ FK with MK read big-endian', fn.loc())
         rets = I.returns(fn, F, True)
-        cx.add('I-SM4', 'new/ret', [I.shorten_vars(v) for _, v in rets if v.startswith('Result::Ok')] == ['Result::Ok{Sm4Cipher::Sm4Cipher{rk}}'], 'the cipher object holds exactly the 32 round keys', fn.loc())
+        ret_ok = [I.shorten_vars(v) for _, v in rets if v.startswith('Result::Ok')] == ['Result::Ok{Sm4Cipher::Sm4Cipher{rk}}']
+        if not ret_ok:
+            # the round-key array is only written in bulk (so it is shown by its initialiser): the object is built from the
+            # local `rk` that new/rk decided
+            from ..builder import root_local
+            objs = [(b, i, st) for b, i, st in fn.stmts() if st['k'] == 'assign' and st['rv']['k'] == 'aggr' and st['rv'].get('akind') == 'adt' and (st['rv'].get('adt') or '').endswith('Sm4Cipher')]
+            ret_ok = len(objs) == 1 and len(objs[0][2]['rv']['ops']) == 1 and objs[0][2]['rv']['ops'][0]['k'] in ('copy', 'move') and \
+                fn.locals[root_local(P, objs[0][2]['rv']['ops'][0], objs[0][0], objs[0][1]) or 0].get('name') == 'rk' and \
+                [I.shorten_vars(v) for _, v in rets if v.startswith('Result::Ok')] == ['Result::Ok{Sm4Cipher::Sm4Cipher{repeat{0}}}']
+        cx.add('I-SM4', 'new/ret', ret_ok, 'the cipher object holds exactly the 32 round keys', fn.loc())
     block_fn(cx, 'encrypt', lambda r: IDX[r], 'round keys in order rk0..rk31')
     block_fn(cx, 'decrypt', lambda r: 'SubWithOverflow(31, %s).0' % IDX[r], 'round keys in reverse order rk31..rk0 (index 31 - i)')
     cx.hold('S-SM4-REV', 'encrypt/decrypt', 'decrypt uses index 31 - (4i + r) where encrypt uses 4i + r, the same round function T and the same reverse output: decided by the two I-SM4 round templates')
